@@ -54,3 +54,32 @@ pub fn leaf_values(a: &dyn Array, path: &str) -> Option<Vec<u64>> {
         _ => return None,
     })
 }
+
+// ---- nameless structural dump of the frame struct array, in the format of the Lean proof model (`dumpAF`)
+fn leaf_sums(a: &dyn Array, out: &mut Vec<String>) {
+    match a.data_type() {
+        DataType::Struct(_) => { let s = a.as_any().downcast_ref::<StructArray>().unwrap(); for c in s.values() { leaf_sums(c.as_ref(), out); } }
+        _ => { let n = a.len(); let path_vals = |a: &dyn Array| -> Vec<u64> { match a.data_type() {
+                DataType::UInt8 => a.as_any().downcast_ref::<PrimitiveArray<u8>>().unwrap().values().iter().map(|x| *x as u64).collect(),
+                DataType::Int8 => a.as_any().downcast_ref::<PrimitiveArray<i8>>().unwrap().values().iter().map(|x| *x as u8 as u64).collect(),
+                DataType::UInt16 => a.as_any().downcast_ref::<PrimitiveArray<u16>>().unwrap().values().iter().map(|x| *x as u64).collect(),
+                DataType::UInt32 => a.as_any().downcast_ref::<PrimitiveArray<u32>>().unwrap().values().iter().map(|x| *x as u64).collect(),
+                DataType::Int32 => a.as_any().downcast_ref::<PrimitiveArray<i32>>().unwrap().values().iter().map(|x| *x as u32 as u64).collect(),
+                DataType::Float32 => a.as_any().downcast_ref::<PrimitiveArray<f32>>().unwrap().values().iter().map(|x| x.to_bits() as u64).collect(),
+                _ => vec![u64::MAX; n] } };
+            out.push(sum(path_vals(a).into_iter()).to_string()); }
+    }
+}
+fn a_struct(a: &dyn Array) -> String { let s = a.as_any().downcast_ref::<StructArray>().unwrap(); let mut sums = vec![]; leaf_sums(a, &mut sums); format!("S[{}|{}|{}]", s.len(), valid(s.validity()), sums.join(",")) }
+fn a_data(a: &dyn Array) -> String { let s = a.as_any().downcast_ref::<StructArray>().unwrap(); let f = |n: &str| { let i = s.fields().iter().position(|f| f.name == n).unwrap(); s.values()[i].clone() };
+    format!("D[{}]{{{};{}}}", valid(s.validity()), a_struct(f("pre").as_ref()), a_struct(f("post").as_ref())) }
+pub fn dump_af(a: &dyn Array) -> String {
+    let s = a.as_any().downcast_ref::<StructArray>().unwrap();
+    let get = |n: &str| s.fields().iter().position(|f| f.name == n).map(|i| s.values()[i].clone());
+    let id = get("id").unwrap(); let idv = id.as_any().downcast_ref::<PrimitiveArray<i32>>().unwrap();
+    let ports = get("ports").unwrap(); let ps = ports.as_any().downcast_ref::<StructArray>().unwrap();
+    let pd: Vec<String> = ps.fields().iter().zip(ps.values()).map(|(f, c)| { let p = c.as_any().downcast_ref::<StructArray>().unwrap(); let g = |n: &str| p.fields().iter().position(|f| f.name == n).map(|i| p.values()[i].clone());
+        format!("P{}{{L={};F={}}}", f.name[1..].parse::<usize>().unwrap() - 1, a_data(g("leader").unwrap().as_ref()), g("follower").map_or("-".to_string(), |x| a_data(x.as_ref()))) }).collect();
+    let item = get("item").map_or("-".to_string(), |l| { let l = l.as_any().downcast_ref::<ListArray<i32>>().unwrap(); format!("{}|{}", l.offsets().iter().map(|x| x.to_string()).collect::<Vec<_>>().join(","), a_struct(l.values().as_ref())) });
+    format!("F[{}|{}]{{{}}}start={};end={};item={}", s.len(), sum(idv.values().iter().map(|x| *x as u32 as u64)), pd.join(";"), get("start").map_or("-".to_string(), |x| a_struct(x.as_ref())), get("end").map_or("-".to_string(), |x| a_struct(x.as_ref())), item)
+}
